@@ -133,6 +133,16 @@ func buildBank(seed int64) (*Scenario, error) {
 			return uint64(1+rng.Intn(60)) * fct
 		}
 	}
+	// a FUNDED request that cannot be priced (4000 pFCT at a PEG price of 1e-7 USD is more than int64 holds): Convert fails in
+	// the pre-check, the batch is dropped silently (it stays pending), yet it takes part in the bank pass with a request of 0
+	// -- the block must still apply (seeded C08-h turned the ignored Convert error of that pass into a failed block).  Once with
+	// per-height banks (115 -> 116), once with a bank row (130 -> 131).
+	dust := Prices(1, 1, map[string]uint64{"FCT": 4e8, "PEG": 10, "USD": 1e8})
+	for i, h := range []uint32{115, 130} {
+		whale := Key("bankwhale", i)
+		b.Burn(101, whale, 4000*fct)
+		b.TxE(h, 0, "funded PEG request that overflows int64: dropped, pending for ever", whale, Conv(whale.FAAddress(), FCT, 4000*fct, PEG))
+	}
 	// seed-chosen: 113..139
 	run, on := 0, false
 	var pendingTotal, last uint64
@@ -142,10 +152,13 @@ func buildBank(seed int64) (*Scenario, error) {
 			run = 1 + rng.Intn(3)
 		}
 		run--
-		if on || h == 118 || h == 139 {
+		if on || h == 118 || h == 139 || h == 116 || h == 131 {
 			p := price
 			if rng.Intn(3) == 0 {
 				p = hprice(seed, h) // other rates: the totals no longer sit on the bank
+			}
+			if h == 116 || h == 131 {
+				p = dust // PEG at 1e-7 USD: the whale's request does not fit int64
 			}
 			b.OPR(h, 25, p, nil)
 			pendingTotal = 0
@@ -169,7 +182,7 @@ func buildBank(seed int64) (*Scenario, error) {
 	b.TxE(139, -2, "entered in the bank era, executed in 2.0", users[3], Conv(users[3].FAAddress(), FCT, fct, PEG))
 	b.OPR(140, 25, price, nil)
 	b.OPR(141, 25, price, nil)
-	b.Dump(105, 106, 107, 108, 111, 112, 118, 119, 120)
+	b.Dump(105, 106, 107, 108, 111, 112, 116, 118, 119, 120, 131)
 	return b.Finish()
 }
 
